@@ -92,6 +92,21 @@ CLAIMS = {
         technique="Lean 4 proof (totality / error-class analysis of the decoder model) + mutation-based "
                   "differential correspondence",
         ref="DESIGN.md §6 C10"),
+    "C03": dict(
+        text="Lean 4 theorems: validate_chunk_coords (model of the repaired test, Python % on arbitrary "
+             "integers) accepts a sextuple IFF it is a cell of the chunk grid of a listed chunk size "
+             "(grid_test_is_exact), with kernel-checked counterexamples of the pre-fix test; raw "
+             "decode∘encode = id for every item size; for EVERY history of writes through a map-like store "
+             "and a lossless codec a read returns the last accepted write to that position and off-grid "
+             "writes are rejected (refinement of the I/O layer to key ⇀ array). compressed_segmentation "
+             "round trip is C02, JPEG shape C10. Tie: boundary-grid fuzz of all six coordinates vs the "
+             "model and the grid predicate; write/read histories over the real PrecomputedIO with "
+             "FileAccessor (4 layouts), ShardedFileAccessor and a dict accessor, all encodings/types, "
+             "big-endian / strided / narrower input arrays, same and fresh handles.",
+        note="Trusted: Lean kernel; standard axioms; hand-written model (tie = sampling + per-axis "
+             "exhaustive boundary sets); store map law = C12/C05; JPEG error bound exploration-level only.",
+        technique="Lean 4 proof (iff characterisation, history refinement) + differential correspondence",
+        ref="DESIGN.md §6 C03"),
 }
 
 ALL = ["C%02d" % i for i in range(1, 21)]
